@@ -358,7 +358,7 @@ def _build_model_locked(gen):
     coq_makefile()
     h = hashlib.sha256()
     for f in sorted(os.listdir(COQ)):
-        if f.endswith(".v") and not f.startswith("Properties_") and (not f.endswith("_lemmas.v") or f in ("Seek_lemmas.v", "SeekH_lemmas.v")):
+        if f.endswith(".v") and not f.startswith("Properties_") and (not f.endswith("_lemmas.v") or f in ("Seek_lemmas.v", "SeekH_lemmas.v", "SeekE_lemmas.v")):
             h.update(open(os.path.join(COQ, f), "rb").read())
     for f in sorted(os.listdir(ML)):
         if f.endswith(".ml"):
